@@ -762,6 +762,21 @@ impl<'tcx> Cx<'tcx> {
                 J::Num(v)
             }
             ty::Uint(_) => J::Num(bits as i128),
+            ty::Adt(adt, _) if adt.is_enum() => {
+                for (vi, d) in adt.discriminants(self.tcx) {
+                    let mask: u128 = if size >= 16 { u128::MAX } else { (1u128 << (size * 8)) - 1 };
+                    if (d.val & mask) == bits {
+                        let v = adt.variant(vi);
+                        return J::obj(vec![
+                            ("adt", J::str(self.tcx.def_path_str(adt.did()))),
+                            ("variant", J::Num(vi.as_u32() as i128)),
+                            ("variant_name", J::str(v.name.to_string())),
+                            ("unit", J::Bool(v.fields.is_empty())),
+                        ]);
+                    }
+                }
+                J::obj(vec![("opaque", J::str(format!("scalar:{}", ty)))])
+            }
             _ => J::obj(vec![
                 ("opaque", J::str(format!("scalar:{}", ty))),
                 ("bits", J::Num(bits as i128)),
@@ -876,6 +891,45 @@ impl<'tcx> Cx<'tcx> {
                     v.push(self.read_mem(alloc, off + fo, t, None, depth + 1));
                 }
                 J::obj(vec![("tuple", J::Arr(v))])
+            }
+            ty::Adt(adt, _) if adt.is_enum() => {
+                // C-like / direct-tag enums: read the tag and map it to a variant
+                let Ok(layout) = tcx.layout_of(env.as_query_input(ty)) else {
+                    return J::obj(vec![("opaque", J::str("layout"))]);
+                };
+                match &layout.variants {
+                    rustc_abi::Variants::Single { index } => {
+                        let v = adt.variant(*index);
+                        J::obj(vec![
+                            ("adt", J::str(tcx.def_path_str(adt.did()))),
+                            ("variant", J::Num(index.as_u32() as i128)),
+                            ("variant_name", J::str(v.name.to_string())),
+                        ])
+                    }
+                    rustc_abi::Variants::Multiple { tag, tag_encoding: rustc_abi::TagEncoding::Direct, tag_field, .. } => {
+                        let toff = layout.fields.offset(tag_field.as_usize()).bytes();
+                        let tsz = tag.size(&tcx).bytes();
+                        let b = self.bytes(alloc, off + toff, tsz);
+                        let mut bits: u128 = 0;
+                        for (i, x) in b.iter().enumerate() {
+                            bits |= (*x as u128) << (8 * i);
+                        }
+                        for (vi, d) in adt.discriminants(tcx) {
+                            let mask: u128 = if tsz >= 16 { u128::MAX } else { (1u128 << (tsz * 8)) - 1 };
+                            if (d.val & mask) == bits {
+                                let v = adt.variant(vi);
+                                return J::obj(vec![
+                                    ("adt", J::str(tcx.def_path_str(adt.did()))),
+                                    ("variant", J::Num(vi.as_u32() as i128)),
+                                    ("variant_name", J::str(v.name.to_string())),
+                                    ("unit", J::Bool(v.fields.is_empty())),
+                                ]);
+                            }
+                        }
+                        J::obj(vec![("opaque", J::str(format!("{}", ty)))])
+                    }
+                    _ => J::obj(vec![("opaque", J::str(format!("{}", ty)))]),
+                }
             }
             _ => J::obj(vec![("opaque", J::str(format!("{}", ty)))]),
         }
